@@ -3,7 +3,17 @@
 DIST_NOTE = "float rounding / overflow behaviour of the closed forms is outside the ℝ theorems (covered by correspondence + search only)"
 SF_NOTE = "special-function algorithms (erf, incomplete gamma/beta, ln_gamma) are modelled, not verified against the true functions: theorems about families that use them are relative to explicit SFSpec premises"
 
+XR_NOTE = "IEEE special values are covered by the exact-value carrier XR (nan | -inf | finite real | +inf); rounding is not modelled there"
+
 PROPS = {
+    "C09": {
+        "corr_filters": ["::new", "::standard", "::default", "::shape", "::rate", "::scale", "::location", "::freedom", "::p", "::n",
+                         "::min", "::max", "::mean", "::std_dev", "::population", "::successes", "::draws", "::shape_a", "::shape_b",
+                         "::freedom_1", "::freedom_2", "::mu", "::c", "::r", "::lambda", "::mode", "::variance"],
+        "not_covered": [XR_NOTE, "vector/matrix constructors (Categorical, Multinomial, Dirichlet, MultivariateNormal, MultivariateStudent): search only",
+                        "Cholesky-based positive-definiteness (nalgebra is not modelled)"],
+        "assumptions": ["documented domains transcribed by hand from the `# Errors` doc sections into Statrs/Spec/Domain.lean"],
+    },
     "C01": {
         "corr_filters": ["::cdf", "::min", "::max"],
         "not_covered": [DIST_NOTE, SF_NOTE, "range/monotonicity of the incomplete gamma/beta/erf algorithms in floating point"],
@@ -13,5 +23,65 @@ PROPS = {
         "corr_filters": ["::sf", "::cdf"],
         "not_covered": [DIST_NOTE, SF_NOTE, "agreement of the two independent continued fractions gamma_lr / gamma_ur in floating point"],
         "assumptions": ["Real-number semantics for theorems; IEEE semantics only through the bit-level correspondence"],
+    },
+    "C03": {
+        "corr_filters": ["::pdf", "::pmf", "::cdf"],
+        "not_covered": [DIST_NOTE, SF_NOTE, "C03 derivative/integral theorems for families whose cdf is an incomplete gamma/beta/erf (search only)",
+                        "finiteness / overflow of closed-form densities (Float-only)"],
+        "assumptions": ["Real-number semantics for theorems; IEEE semantics only through the bit-level correspondence and the Float counterexample theorems"],
+    },
+    "C04": {
+        "corr_filters": ["::ln_pdf", "::ln_pmf", "::pdf", "::pmf"],
+        "not_covered": [DIST_NOTE, "underflow regions ('may be finite but not +inf/NaN')", "multivariate log-densities (see C19)"],
+        "assumptions": ["Real.log 0 = 0 over ℝ: statements are restricted to points with positive density; off-support behaviour is covered by the ∀α guard lemmas"],
+    },
+    "C05": {
+        "corr_filters": ["::inverse_cdf", "::cdf", "crate::distribution::internal"],
+        "hand_suites": ["inv_beta_reg"],
+        "not_covered": [DIST_NOTE, SF_NOTE, "convergence/accuracy of the iterative inverses (Gamma Newton steps, inv_beta_reg AS 109): pin + search only"],
+        "assumptions": [],
+    },
+    "C07": {
+        "corr_filters": ["::mean", "::variance", "::std_dev", "::entropy", "::skewness"],
+        "not_covered": [DIST_NOTE, "moment integrals of non-elementary densities and all entropy/skewness integrals: formula level only, tied to the density by the search"],
+        "assumptions": [],
+    },
+    "C08": {
+        "corr_filters": ["::median", "::mode", "::min", "::max"],
+        "not_covered": [DIST_NOTE, "modes/medians of special-function families (search only)", "documented-approximation medians (40%-60% band): search only"],
+        "assumptions": [],
+    },
+    "C10": {
+        "corr_filters": ["ChiSquared::", "Gamma::", "Erlang::", "Exp::", "Weibull::", "Bernoulli::", "Binomial::", "Beta::", "Uniform::", "StudentsT::",
+                         "Cauchy::", "Normal::", "Chi::", "LogNormal::", "InverseGamma::", "FisherSnedecor::", "Geometric::", "NegativeBinomial::", "Dirac::",
+                         "Laplace::", "Gumbel::", "Levy::", "Triangular::"],
+        "not_covered": [DIST_NOTE, "agreement of two different special-function algorithms in floating point (gamma_lr vs exp, beta_reg vs atan): search only"],
+        "assumptions": [],
+    },
+    "C11": {
+        "corr_filters": ["crate::function"],
+        "hand_suites": ["inv_beta_reg"],
+        "not_covered": ["accuracy of gamma/ln_gamma/digamma/erf/erfc/incomplete gamma/beta and their inverses against the TRUE functions: Mathlib has no erf or incomplete gamma/beta, so this part is decided by the reference-table search only, never claimed as proved",
+                        "positivity of the Lanczos sum; binomial for n > 170"],
+        "assumptions": ["special-function models are pinned bit-for-bit to the code by the correspondence; their coefficient tables are regenerated from the source"],
+    },
+    "C12": {
+        "corr_filters": ["crate::function", "::new", "Hypergeometric::", "DiscreteUniform::", "Geometric::", "i64::", "i32::", "u64::", "u32::", "f64::"],
+        "not_covered": ["termination of convergence-tested floating-point loops (incomplete gamma series/continued fraction, Kolmogorov series, inv_beta_reg) and of rejection samplers: they terminate because of rounding, which the ℝ model does not carry — watchdog only",
+                        "integer overflow of + and * is not modelled (unsigned subtraction and division by zero are)"],
+        "assumptions": ["harness built with overflow-checks = true; every call under catch_unwind and a watchdog"],
+    },
+    "C13": {
+        "corr_filters": [],
+        "hand_suites": ["stats"],
+        "not_covered": ["the rounding-error bound itself (backward error of the streaming updates in IEEE arithmetic): measured by the exact-rational oracle in the search, not proved",
+                        "geometric/harmonic mean zero-entry and negative-entry rules that depend on ln 0 / 1/0 in IEEE arithmetic"],
+        "assumptions": [],
+    },
+    "C20": {
+        "corr_filters": ["i64::", "i32::", "u64::", "u32::", "f64::", "crate::function::evaluate", "crate::prec", "crate::generate"],
+        "hand_suites": ["generators"],
+        "not_covered": ["machine overflow of the intermediate (x % d) + d (characterised exactly by theorem, exhibited by the search)", "Horner rounding bound (Float-only)", "generator phase accumulation error in floating point"],
+        "assumptions": [],
     },
 }
